@@ -14,7 +14,7 @@ from vlib import gen, runner
 
 PROPERTY = "C17"
 LEVEL = "exploration"
-TIMEOUT = {"quick": 900, "thorough": 5400}
+TIMEOUT = {"quick": 1500, "thorough": 7200}
 RULE = (
     "recipes from vlib.gen.Gen with hostile=1 (extra weight on layouts cubed may not support: ragged qr/svd "
     "blocks, multi-chunk core dims for apply_gufunc, mismatched chunking in stack/concat, reshape, many-chunk "
